@@ -575,7 +575,9 @@ ListAlphabet ==        \* C19: ordinary symbols of any value (negative, > 16 bit
     \* equal values whose names order differently as written and with the letter case folded
     Const("Zed", Num(3)), Const("IOB", Num(512)), Const("IO_BASE", Num(512)),
     \* a string whose size is announced before its contents are known (non-ASCII text under utf-8, a chunk naming a later symbol)
-    [k |-> "asciic", cs |-> << [u |-> <<1078, 1091, 1078>>], [e |-> Sym("z")] >>] }
+    [k |-> "asciic", cs |-> << [u |-> <<1078, 1091, 1078>>], [e |-> Sym("z")] >>],
+    \* a word list that is one constant (the harness spells it as the bare name when the constant is assigned above it)
+    W(<< Sym("top") >>) }
 ListIncFiles == << [name |-> "i1", body |-> << Lab("x"), I0("nop"), Lab("a"), Const("n", Num(9)) >>],
                    [name |-> "i2", body |-> << Const("q", Num(-70000)), LabX("y"), By(<<Num(2)>>) >>] >>
 
